@@ -935,6 +935,10 @@ class PDFDocument:
             raise PDFKeyError((cat, key))
         # may raise KeyError
         d0 = dict_value(names[cat])
+        if not isinstance(key, bytes):
+            # The keys of a name tree are strings (bytes); a name (str) is
+            # never one of them and cannot be compared with the Limits.
+            raise PDFKeyError((cat, key))
 
         def lookup(d: Dict[str, Any]) -> Any:
             if "Limits" in d:
